@@ -192,6 +192,10 @@ def check(ctx, rep):
                             key = "%s: %s() with a lock held" % (e.fn.qualname, name)
                             held = [fmt(l[1]) for l in e.locks]
                             if rname.startswith("ThrottleExecutor.submit") and name == "wait" and e.d["args"] and all(lock_role(it, p, l[1]) == ("ShutdownHelper", gatefield) for l in e.locks):
+                                # only in blocking mode: the flag kept from the constructor's `block` was found true
+                                bf = roles.ctor_param_fields(ctx, prog.cls("ThrottleExecutor"), "block")
+                                inmode = any(q.truth_of(p, ("attr", ("param", "self"), f)) is True for f in bf)
+                                rep.ob("R-LOCK-BLOCK", "ThrottleExecutor.submit waits only in blocking mode", inmode, "submit() reaches the wait on a path where the blocking-mode flag (%s) was not found true: an executor created without block=True must never block in submit() (a callable that resubmits to its own full executor would wait for itself)" % ", ".join(bf), where_of(e.fn, e.node), trace_of(p, e.seq))
                                 key = "ThrottleExecutor.submit (blocking mode): timed wait() inside the shutdown gate"
                                 rep.exception("R-LOCK-BLOCK", key, "blocking mode of ThrottleExecutor: submit() is documented to block, and it does so inside the shutdown gate; the wait is timed (30 s) and re-checks the shutdown flag")
                                 continue
